@@ -406,8 +406,9 @@ pub fn c_run(table: &FnTable, pp: &mut ParsedPacket, steps: &[Step]) -> Result<V
 // script generation (state dependent, so that the table's preconditions hold)
 
 pub fn initial() -> Vec<Vec<u8>> {
-    crate::bfs::initial_states(Tier::Quick, false)
+    crate::bfs::initial_states_d(Tier::Quick, false)
         .into_iter()
+        .filter(|(_, d)| *d == usize::MAX) // the BFS's full-depth initial packets only
         .filter_map(|(i, _)| match i {
             crate::bfs::Init::Packet(p) => Some(p),
             _ => None,
@@ -575,7 +576,7 @@ fn run(ctx: &mut Ctx, rep: &mut Report) {
     let inits = initial();
     let depth = 3;
     let mut gi = 0u64;
-    for (ii, init) in inits.iter().enumerate() {
+    'outer: for (ii, init) in inits.iter().enumerate() {
         let s1s = steps_for(init);
         for s1 in &s1s {
             gi += 1;
@@ -584,7 +585,7 @@ fn run(ctx: &mut Ctx, rep: &mut Report) {
             }
             if ctx.timed_out() {
                 rep.cap("time budget reached".into());
-                return;
+                break 'outer;
             }
             let mut stack: Vec<Vec<Step>> = vec![vec![s1.clone()]];
             while let Some(script) = stack.pop() {
@@ -600,8 +601,8 @@ fn run(ctx: &mut Ctx, rep: &mut Report) {
                         if rep.samples.len() < MAX_SAMPLES && rep.evaluations % 5003 == 0 {
                             rep.sample(|| json!({"initial": hex(init), "steps": steps_json(&script), "class": c}));
                         }
-                        // the long aligned packet (last initial) is explored to depth 2 in the quick tier
-                        let depth = if ctx.tier == Tier::Quick && ii + 1 == inits.len() { 2 } else { depth };
+                        // quick tier: three steps from the first six initial packets, two from the others
+                        let depth = if ctx.tier == Tier::Quick && ii >= 6 { 2 } else { depth };
                         if script.len() < depth && !c.starts_with("native_panic") {
                             // successor alphabet from the state the native run reaches
                             let mut pp = crate::subj::parse(init).unwrap();
